@@ -124,9 +124,9 @@ def check_tree(system: model.System) -> List[Viol]:
                     # moved more than once: the alias in the class names the first stop only; the harness logged every move
                     from . import simsystem as _ss
                     me = _ss.ident(o)
-                    first_old = next((e[2] for e in getattr(system, 'sim_log', []) if e[0] == 'reparent' and e[1] == me), None)
-                    if first_old is not None:
-                        moved = isinstance(allobjects.get(first_old.rpartition('.')[0]), model.Class)
+                    first = next((e for e in getattr(system, 'sim_log', []) if e[0] == 'reparent' and e[1] == me), None)
+                    if first is not None:
+                        moved = bool(first[4])      # its parent at the time of the first move was a class
                 out.append((f'I4-method-in-module,kind={o.kind.name},origin={"moved-from-class" if moved else "defined-here"}',
                             f'{k!r} sits in a module but has kind {o.kind}'))
         if isinstance(o, model.Module):
